@@ -127,7 +127,7 @@ PROPS["C09"] = {
                    "that is read successfully is not longer than that bound; the number of newer-root requests is at "
                    "most max_root_updates; the number of delegated-role requests of a cycle is at most the number of "
                    "role entries of the trusted snapshot, whatever the server answers (self- and mutual delegation "
-                   "included), and the model's recursion fuel is never exhausted. Correspondence: request counts, bytes "
+                   "included), and the model's recursion fuel is never exhausted. The whole cycle, any outcome, any server: at most max_root_updates + 3 requests plus one per entry of a snapshot the repository serves (cycle_requests_bounded). Correspondence: request counts, bytes "
                    "pulled per request and results of load() vs the model.",
     "level_text": "Kernel-checked bounds on requests and accepted sizes for every server (the server is an arbitrary "
                   "function from file names to responses), differential runs against scripted oversized/endless/cyclic servers.",
